@@ -49,6 +49,10 @@ pub fn ser(t: &T, out: &mut Vec<u8>) {
 }
 pub fn to_bytes(t: &T) -> Vec<u8> { let mut v = vec![]; ser(t, &mut v); v }
 
+pub fn tree_hash_t(t: &T) -> [u8; 32] {
+    match t { T::A(b) => sha(&[&[1u8], b]), T::P(l, r) => sha(&[&[2u8], &tree_hash_t(l), &tree_hash_t(r)]) }
+}
+
 pub fn sha(parts: &[&[u8]]) -> [u8; 32] {
     let mut h = Sha256::new();
     for p in parts { h.update(p); }
@@ -307,12 +311,15 @@ pub fn gen_cond(r: &mut Rng, p: &Pools, me: &SpendG, all: &[SpendG]) -> T {
 }
 
 /// a bundle with cross-spend structure: matching announcements, messages, ephemeral coins
-pub fn gen_bundle(r: &mut Rng, p: &Pools) -> Vec<SpendG> {
+pub fn gen_bundle(r: &mut Rng, p: &Pools) -> Vec<SpendG> { gen_bundle_ph(r, p, None) }
+
+/// like `gen_bundle`, optionally with every spend's puzzle hash fixed (generator paths: ph = hash of the revealed puzzle)
+pub fn gen_bundle_ph(r: &mut Rng, p: &Pools, fixed_ph: Option<[u8; 32]>) -> Vec<SpendG> {
     let n = match r.below(20) { 0 => 0, 1..=8 => 1, 9..=14 => 2, 15..=17 => 3, _ => r.range(4, 6) } as usize;
     let mut sp: Vec<SpendG> = vec![];
     for i in 0..n {
         let amount = if r.chance(2, 3) { *r.pick(&[0u64, 1, 2, 3, 1000, 1001]) } else { *r.pick(&p.amounts) };
-        let mut s = SpendG { parent: *r.pick(&p.ids), ph: *r.pick(&p.ids), amount, conds: vec![], term: nil() };
+        let mut s = SpendG { parent: *r.pick(&p.ids), ph: fixed_ph.unwrap_or(*r.pick(&p.ids)), amount, conds: vec![], term: nil() };
         if i > 0 && r.chance(1, 4) { let j = r.below(i as u64) as usize; s.parent = sp[j].coin_id(); } // maybe ephemeral
         if i > 0 && r.chance(1, 25) { s = sp[r.below(i as u64) as usize].clone(); s.conds.clear(); }   // double spend
         sp.push(s);
@@ -525,6 +532,85 @@ fn ucc_line(o: &mut Out, l: &str) {
     let op: u32 = l.split_whitespace().nth(2).unwrap().parse().unwrap();
     let v = chia_consensus::opcodes::compute_unknown_condition_cost(op as u16);
     o.case(l, &v.to_string());
+}
+
+// ---------------------------------------------------------------------------------------------
+// C06: strict flags only restrict; order never changes the verdict (metamorphic pairs)
+
+fn plain_tree(sp: &[SpendG]) -> T {
+    pair(list(sp.iter().map(|s| list(vec![at(&s.parent), at(&s.ph), int(s.amount), list(s.conds.clone(), s.term.clone())], nil())).collect(), nil()), nil())
+}
+
+/// fields of a result that must not depend on order: everything except listing order, and the
+/// positionally defined fast-forward eligibility bit
+fn order_free(c: &OwnedSpendBundleConditions) -> String {
+    let mut c = c.clone();
+    for s in &mut c.spends {
+        s.flags &= !4;
+        for l in [&mut s.agg_sig_me, &mut s.agg_sig_parent, &mut s.agg_sig_puzzle, &mut s.agg_sig_amount, &mut s.agg_sig_puzzle_amount, &mut s.agg_sig_parent_amount, &mut s.agg_sig_parent_puzzle] {
+            l.sort_by(|a, b| (a.0.to_bytes().to_vec(), a.1.as_ref().to_vec()).cmp(&(b.0.to_bytes().to_vec(), b.1.as_ref().to_vec())));
+        }
+    }
+    c.agg_sig_unsafe.sort_by(|a, b| (a.0.to_bytes().to_vec(), a.1.as_ref().to_vec()).cmp(&(b.0.to_bytes().to_vec(), b.1.as_ref().to_vec())));
+    c.spends.sort_by(|a, b| a.coin_id.to_bytes().cmp(&b.coin_id.to_bytes()));
+    c.num_atoms = 0; c.num_pairs = 0; c.heap_size = 0;
+    bundle_s(&c)
+}
+
+fn c06_pair(o: &mut Out, kind: &str, mempool: bool, f1: u32, t1: &T, f2: u32, t2: &T) {
+    let (b1, b2) = (to_bytes(t1), to_bytes(t2));
+    let mut pks = vec![]; valid_pks(t1, &mut pks); valid_pks(t2, &mut pks);
+    let pk_s = if pks.is_empty() { "-".to_string() } else { pks.iter().map(hex::encode).collect::<Vec<_>>().join(",") };
+    let line = format!("C06 {} {} {} {} {} {} {}", kind, if mempool { "m" } else { "e" }, f1, f2, pk_s, hex::encode(&b1), hex::encode(&b2));
+    let r1 = run_parse_owned(mempool, f1, 11_000_000_000, 0, &b1);
+    let r2 = run_parse_owned(mempool, f2, 11_000_000_000, 0, &b2);
+    let show = |r: &Result<Result<OwnedSpendBundleConditions, ValidationErr>, String>| match r { Ok(Ok(c)) => bundle_s(c), Ok(Err(e)) => { let s = err_s(e); if let Some(i) = s.find(" ~") { s[..i].to_string() } else { s } }, Err(e) => e.clone() };
+    // the property on the two implementation results
+    let prop = match (kind, &r1, &r2) {
+        // strict (first) accepted => non-strict (second) accepted with the identical summary
+        ("strict", Ok(Ok(a)), Ok(Ok(b))) => if bundle_s(a) == bundle_s(b) { "ok" } else { "VIOLATED:summary-differs" },
+        ("strict", Ok(Ok(_)), _) => "VIOLATED:strict-accepted-but-lenient-rejected",
+        ("strict", _, _) => "ok",
+        // permutation: same verdict, same cost and aggregates (order-free view)
+        (_, Ok(Ok(a)), Ok(Ok(b))) => if order_free(a) == order_free(b) { "ok" } else { "VIOLATED:aggregates-differ" },
+        (_, Ok(Err(_)), Ok(Err(_))) => "ok",
+        _ => "VIOLATED:verdict-differs",
+    };
+    o.case(&line, &format!("A={} || B={} || prop={}", show(&r1), show(&r2), prop));
+}
+
+pub fn run_c06(o: &mut Out, seed: u64, thorough: bool, replay: Option<Vec<String>>) {
+    if let Some(lines) = replay {
+        for l in lines { let t: Vec<&str> = l.split_whitespace().collect();
+            let mut a = Allocator::new();
+            let n1 = node_from_bytes(&mut a, &hex::decode(t[6]).unwrap()).unwrap(); let n2 = node_from_bytes(&mut a, &hex::decode(t[7]).unwrap()).unwrap();
+            let (t1, t2) = (node_to_t(&a, n1), node_to_t(&a, n2));
+            c06_pair(o, t[1], t[2] == "m", t[3].parse().unwrap(), &t1, t[4].parse().unwrap(), &t2); }
+        return;
+    }
+    let p = pools();
+    let mut r = Rng::new(seed ^ 0xc06);
+    let n = if thorough { 150_000 } else { 12_000 };
+    for _ in 0..n {
+        let sp = gen_bundle(&mut r, &p);
+        let t = plain_tree(&sp);
+        let base = F_DONT_VALIDATE | (if r.chance(1, 2) { F_COST } else { 0 });
+        let mempool = r.chance(1, 2);
+        // strictness subsets
+        let mut s = 0u32;
+        if r.chance(1, 2) { s |= F_NO_UNKNOWN; } if r.chance(1, 2) { s |= F_STRICT; } if r.chance(1, 2) { s |= F_LIMIT; }
+        if s == 0 { s = F_STRICT; }
+        c06_pair(o, "strict", mempool, base | s, &t, base, &t);
+        // permutations of spends and of conditions within spends
+        let flags = base | (if r.chance(1, 3) { s } else { 0 });
+        let mut sp2 = sp.clone();
+        if sp2.len() > 1 { let (i, j) = (r.below(sp2.len() as u64) as usize, r.below(sp2.len() as u64) as usize); sp2.swap(i, j); }
+        if r.chance(1, 2) { sp2.reverse(); }
+        for s2 in &mut sp2 { if s2.conds.len() > 1 {
+            match r.below(3) { 0 => s2.conds.reverse(), 1 => { let k = r.below(s2.conds.len() as u64) as usize; s2.conds.rotate_left(k); }
+                _ => { let (i, j) = (r.below(s2.conds.len() as u64) as usize, r.below(s2.conds.len() as u64) as usize); s2.conds.swap(i, j); } } } }
+        c06_pair(o, "perm", mempool, flags, &t, flags, &plain_tree(&sp2));
+    }
 }
 
 #[allow(dead_code)]
